@@ -240,6 +240,11 @@ Section Conf.
       | _ => false
       end.
 
+    (** an omitempty element that is not written holds exactly the zero value d.Opt leaves
+        (as [conf_fields] demands of reflectively decoded structures) *)
+    Definition omit_zero (fd : field) (x : value) : bool :=
+      if is_zero x then value_eqb x (zero_of S 8 (f_ty fd)) else true.
+
     Definition conf_key_block (st : vstate) (d : tdef) (tag : Z) (fs : list value) : option vstate :=
       match t_fields d, fs, find_tdef S "kmip.KeyValue" with
       | [f0; f1; f2; f3; f4; f5], [VInt kft; kct; kv; alg; ln; kwd], Some kvd =>
@@ -253,6 +258,7 @@ Section Conf.
            t_custom_enc kvd && (List.length (t_fields kvd) =? 2)%nat &&
            ty_eqb (fty kvd 0) (TPtr (TScalar KBytes)) && ty_eqb (fty kvd 1) (TPtr (TNamed "kmip.PlainKeyValue")) &&
            keeps st (f_ty f1) (f_tag f1) kct && keeps st (f_ty f3) (f_tag f3) alg && keeps st (f_ty f4) (f_tag f4) ln &&
+           omit_zero f1 kct && omit_zero f3 alg && omit_zero f4 ln &&
            conf_key_value st kft (f_tag f2) kv &&
            keeps st (f_ty f5) (f_tag f5) kwd
         then Some st else None
@@ -339,6 +345,8 @@ Section Conf.
       let _ := (ATTRS, OBJS) in   (* used by codecs not dispatched yet: keeps the signature stable *)
       let n := t_name d in
       if String.eqb n "kmip.RequestBatchItem" then conf_request_item st d tag fs
+      else if String.eqb n "kmip.Credential" then conf_credential st d tag fs
+      else if String.eqb n "kmip.KeyBlock" then conf_key_block st d tag fs
       else if String.eqb n "payloads.GetResponsePayload" then conf_typed_object 2 st d tag fs
       else if String.eqb n "payloads.RegisterRequestPayload" then conf_typed_object 2 st d tag fs
       else if String.eqb n "payloads.ExportResponsePayload" then conf_typed_object 3 st d tag fs
